@@ -3,9 +3,72 @@ package main
 import (
 	"fmt"
 	"strings"
+	"sync"
 
+	"aaverif/internal/plan"
 	"aaverif/internal/ref"
 )
+
+var (
+	soloMu    sync.Mutex
+	soloCache = map[string]*plan.Res{}
+	soloRuns  int
+)
+
+// Solo executes one call alone, as the first call of a fresh process (cached per
+// distinct call). It is the yardstick of "what the call returns when run alone".
+func (e *Env) Solo(drv string, op plan.Op) *plan.Res {
+	k := drv + "|" + soloKey(op)
+	soloMu.Lock()
+	if r, ok := soloCache[k]; ok {
+		soloMu.Unlock()
+		return r
+	}
+	soloMu.Unlock()
+	op.I, op.Keep, op.Buf, op.Shared, op.SlabOff = 0, false, 0, false, 0
+	res, died := e.RunProc(drv, []plan.Op{op}, nil, 0)
+	var r *plan.Res
+	if len(res) == 1 {
+		r = &res[0]
+	} else {
+		r = &plan.Res{Died: died}
+	}
+	soloMu.Lock()
+	soloCache[k] = r
+	soloRuns++
+	soloMu.Unlock()
+	return r
+}
+
+// confirmedDeviation decides whether an observation made inside a history or
+// under concurrency differs from what the same call returns alone. The reference
+// model is only a cheap filter: when it is satisfied nothing more is done; when
+// it is not (or does not cover the call) the call is executed alone and the two
+// observations are compared. A call that is wrong in the same way when run alone
+// is some other property's business, not a history or concurrency effect.
+func (e *Env) confirmedDeviation(drv string, op *plan.Op, r *plan.Res, x refExpect) string {
+	if x.defined && e.judgeAgainstRef(op, r, x) == "" {
+		return ""
+	}
+	if op.Fn == "new" && op.Src == nil && !op.Shared && validCount64(op.N) {
+		// default source: outputs cannot be compared; only "valid alone, invalid here" counts
+		if why := e.judgeAgainstRef(op, r, x); why != "" {
+			s := e.Solo(drv, *op)
+			if s.Died == "" && e.judgeAgainstRef(op, s, x) == "" {
+				return why + " (the same call alone returns a valid mnemonic)"
+			}
+		}
+		return ""
+	}
+	s := e.Solo(drv, *op)
+	if s.Died != "" {
+		return "" // the call alone kills the process: C14's business
+	}
+	if why := sameObservation(r, s); why != "" {
+		return "differs from the same call executed alone in a fresh process: " + why
+	}
+	return ""
+}
 
 // RefSeed is R-SEED: PBKDF2 (written out in package ref) over CPython's NFKD
 // of both arguments. ok is false when an argument is not valid UTF-8.
